@@ -235,7 +235,10 @@ def holds(rule, snap, T, lenient=False):
     """does the documented rule hold on the part snapshot (True/False)"""
     k = rule[0]
     if k == "type":
-        return any(isinst(snap.get(rule[1]), t) for t in rule[2])
+        v = snap.get(rule[1])
+        if ptype(v) == "bool" and "bool" not in rule[2]:
+            return False                    # documented: an integer (string, ...) field does not hold a bool (F22/F43; `bool <: int` is Python's business)
+        return any(isinst(v, t) for t in rule[2])
     if k == "value":
         v = snap.get(rule[1])
         return isinstance(v, str) and v in T[rule[2]]
